@@ -106,6 +106,23 @@ func Unnest(a Set, attr string) (Set, error) {
 	if !key.Has(attr) {
 		return nil, fmt.Errorf("unnest attr %q not found in relation (%v)", attr, key)
 	}
+	outer := key.Without(attr)
+	for e := a.Enumerator(); e.MoveNext(); {
+		v, _ := e.Current().(Tuple).Get(attr)
+		nested, is := v.(Set)
+		if !is {
+			return nil, fmt.Errorf("unnest attr %q must hold relations, not %s", attr, ValueTypeAsString(v))
+		}
+		for n := nested.Enumerator(); n.MoveNext(); {
+			t, is := n.Current().(Tuple)
+			if !is {
+				return nil, fmt.Errorf("unnest attr %q must hold relations, not sets of %s", attr, ValueTypeAsString(n.Current()))
+			}
+			if common := t.Names().Intersect(outer); common.IsTrue() {
+				return nil, fmt.Errorf("unnest attr %q holds tuples with attrs (%v) that the outer relation also has", attr, common)
+			}
+		}
+	}
 	return Reduce(
 		a,
 		func(value Value) Value {
